@@ -102,8 +102,21 @@ def rand_node(rng, depth, *, kinds=('s', 's', 's', 'i'), width=4, hostile=True, 
                         pool_s=pool_s, allow_empty=allow_empty) for _ in range(n)])
 
 
-def rand_doc(rng, depth=4, **kw):
-    return rand_node(rng, depth, top=True, **kw)
+def rand_doc(rng, depth=4, pathlike=0.15, **kw):
+    d = rand_node(rng, depth, top=True, **kw)
+    if rng.random() < pathlike:
+        add_pathlike_keys(rng, d, kw.get('marker'))
+    return d
+
+
+def add_pathlike_keys(rng, doc, marker=None):
+    """string keys spelled exactly like the path of another node of the same document ("a.b" next to a: {b: ..}, "x[1]")"""
+    from .emit import walk
+    cands = [path_str(p) for p, _ in walk(doc) if len(p) >= 2]
+    cands = [c for c in cands if c and c not in [k for k, _ in doc['items']]]
+    for c in rng.sample(cands, min(len(cands), rng.randrange(1, 3))):
+        doc['items'].insert(rng.randrange(len(doc['items']) + 1), [c, scalar_node(rng, rand_scalar(rng, False, marker))])
+    return doc
 
 
 def mutate_doc(rng, base, depth=3, **kw):
@@ -125,8 +138,8 @@ def mutate_doc(rng, base, depth=3, **kw):
                 if rng.random() < 0.3:
                     els.append(rand_node(rng, d - 1, **kw))
                 items.append([k, L(els)])
-            elif r < 0.8 and c['t'] == 'seq' and c['items']:
-                # mapping addressing list indices (some invalid on purpose)
+            elif r < 0.8 and c['t'] == 'seq':
+                # mapping addressing list indices (some invalid on purpose; an empty list has no valid index at all)
                 n_el = len(c['items'])
                 idxs = rng.sample(range(-n_el - 1, n_el + 2), k=min(2, n_el + 2))
                 items.append([k, M([[i, rand_node(rng, d - 1, **kw)] for i in sorted(set(idxs))])])
